@@ -108,4 +108,46 @@ theorem tangentSurfaceR_rational_quotient (pu pv d : ℕ) (Uu Uv : ℕ → K) (s
   unfold tangentSurface
   exact ⟨hpos, hu.1, hu.2, hv.2⟩
 
+/-- `operations.normal` of a RATIONAL 3-D surface through the repaired search (op `nrmsr 1 …`): the point entry of the
+    tangent triple and the cross product of its two tangent vectors (`Su c`, `Sv c` name their coordinates – the quotient-rule
+    values of `tangentSurfaceR_rational_quotient`), orthogonal to both -/
+theorem normalSurfaceR_rational (pu pv : ℕ) (Uu Uv : ℕ → K) (su sv : ℕ) (Pw : List (List K)) (u v : K)
+    (hUu : DomOk pu Uu su) (hUv : DomOk pv Uv sv) (hlen : Pw.length = su * sv) (hP : NetOk (3+1) Pw)
+    (hu1 : Uu pu ≤ u) (hu2 : u ≤ Uu su) (hv1 : Uv pv ≤ v) (hv2 : v ≤ Uv sv)
+    (Su Sv : ℕ → K)
+    (hSu : ∀ c, Su c = (tangentSurface (ratSurfaceDers (surfaceDersA36R pu pv Uu Uv su sv Pw u v 1) 1)).2.1.getD c 0)
+    (hSv : ∀ c, Sv c = (tangentSurface (ratSurfaceDers (surfaceDersA36R pu pv Uu Uv su sv Pw u v 1) 1)).2.2.getD c 0) :
+    ∃ n, normalSurface (ratSurfaceDers (surfaceDersA36R pu pv Uu Uv su sv Pw u v 1) 1)
+        = some ((tangentSurface (ratSurfaceDers (surfaceDersA36R pu pv Uu Uv su sv Pw u v 1) 1)).1, n) ∧
+      n = [Su 1 * Sv 2 - Su 2 * Sv 1, Su 2 * Sv 0 - Su 0 * Sv 2, Su 0 * Sv 1 - Su 1 * Sv 0] ∧
+      n.getD 0 0 * Su 0 + n.getD 1 0 * Su 1 + n.getD 2 0 * Su 2 = 0 ∧
+      n.getD 0 0 * Sv 0 + n.getD 1 0 * Sv 1 + n.getD 2 0 * Sv 2 = 0 := by
+  unfold surfaceDersA36R at hSu hSv ⊢
+  obtain ⟨_, hpu, hku⟩ := findSpanLinearR_ok hUu u hu1 hu2
+  obtain ⟨_, hpv, hkv⟩ := findSpanLinearR_ok hUv v hv1 hv2
+  obtain ⟨_, h10, h01⟩ := tangentSurface_rational_length pu pv Uu Uv su sv Pw _ _ u v 3 hpu hpv hku hkv hlen hP
+  obtain ⟨a0, a1, a2, ha⟩ := List.length_eq_three.mp h10
+  obtain ⟨b0, b1, b2, hb⟩ := List.length_eq_three.mp h01
+  rw [ha] at hSu
+  rw [hb] at hSv
+  have ea0 : Su 0 = a0 := hSu 0
+  have ea1 : Su 1 = a1 := hSu 1
+  have ea2 : Su 2 = a2 := hSu 2
+  have eb0 : Sv 0 = b0 := hSv 0
+  have eb1 : Sv 1 = b1 := hSv 1
+  have eb2 : Sv 2 = b2 := hSv 2
+  refine ⟨[a1 * b2 - a2 * b1, a2 * b0 - a0 * b2, a0 * b1 - a1 * b0], ?_, ?_, ?_, ?_⟩
+  · unfold tangentSurface at ha hb ⊢
+    unfold normalSurface
+    simp only [] at ha hb
+    rw [ha, hb]
+    rfl
+  · rw [ea0, ea1, ea2, eb0, eb1, eb2]
+  · rw [ea0, ea1, ea2]
+    simp only [List.getD_cons_zero, List.getD_cons_succ]
+    ring
+  · rw [eb0, eb1, eb2]
+    simp only [List.getD_cons_zero, List.getD_cons_succ]
+    ring
+
 end Geomdl
